@@ -7,9 +7,9 @@ import random
 from .universe import Env, Unprojectable, canon_state, canon_field, NONE
 
 # fields that identify a state but cannot be observed through the public API
-UNOBSERVABLE = {"built", "nev"}
+UNOBSERVABLE = {"built", "nev", "shadowed"}
 BASE_KEYS = {"mods", "kids", "par", "cache", "addr", "isz", "off", "bsz", "sname", "pay", "symx",
-             "cfg", "bytes", "tags", "entry", "built", "nev"}
+             "cfg", "bytes", "tags", "entry", "built", "nev", "scal", "shadowed"}
 
 # which property a diverging field speaks about
 FIELD_PROP = {
@@ -20,7 +20,7 @@ FIELD_PROP = {
     "cfg": "C11", "outs": "C11", "ins": "C11", "nout": "C11", "nin": "C11",
     "symx": "C16",
     "bytes": "C19", "bbytes": "C19", "baddr": "C19", "isz": "C19",
-    "addr": "C06", "off": "C05", "bsz": "C05", "secext": "C06", "entry": "C04",
+    "addr": "C06", "off": "C05", "bsz": "C05", "secext": "C06", "entry": "C04", "scal": "C01", "deq": "C18",
 }
 
 
@@ -31,6 +31,8 @@ def op_prop(name):
         return "C11"
     if name == "reload":
         return "C01"
+    if name == "scal":
+        return "C02"
     if name.startswith("sym."):
         return "C10"
     if name.startswith("attr.b") or name.startswith("attr.init") or name == "attr.isize":
@@ -98,6 +100,8 @@ def diff_states(exp, obs):
         if o != e:
             if isinstance(e, dict):
                 for kk in e:
+                    if k == "deq" and e[kk] == "unknown":
+                        continue
                     if o.get(kk) != e[kk]:
                         out.append((k, kk, e[kk], o.get(kk)))
             else:
